@@ -89,6 +89,7 @@ type c18Op struct {
 	List  bool     `json:"list,omitempty"`
 	Tail  string   `json:"tail,omitempty"` // "" proper list, "_" partial list, "x" improper
 	N     string   `json:"n,omitempty"`
+	Near  int      `json:"near,omitempty"` // query: derived at run time from an entry of the current table (picked by this number) and perturbed
 }
 
 type c18Table map[[2]string][2]string // (name, class) -> (priority, specifier)
@@ -224,6 +225,10 @@ func c18Gen(r *kit.Run) []c18Op {
 		case 0:
 			ops = append(ops, genOp())
 		case 1:
+			if g.Choose(3) == 0 {
+				ops = append(ops, c18Op{Kind: "query", P: "P", S: "S", N: "N", Near: 1 + g.Choose(100000)})
+				continue
+			}
 			q := c18Op{Kind: "query", P: "P", S: "S", N: "N"}
 			if g.Choose(2) == 0 {
 				q.P = fmt.Sprint(c18Prios[1+g.Choose(len(c18Prios)-1)])
@@ -371,7 +376,7 @@ func (c18) Exec(r *kit.Run) {
 			if err != nil {
 				failed++
 				r.Fault("failing-op/3")
-				if strings.Join(before, "|") != strings.Join(after, "|") {
+				if !kit.SameList(before, after) {
 					r.Fail("table-changed-on-error", "failed-op-changed-table:"+sig, "%s raised %s but changed the operator table: %s", o.goal(), kit.CanonErr(err), c18Diff(before, after))
 					return
 				}
@@ -385,15 +390,39 @@ func (c18) Exec(r *kit.Run) {
 				r.Fail("invalid-op-accepted", "invalid-op-accepted:"+sig, "%s succeeded; by the ISO rules it must raise. table change: %s (history: %s)", o.goal(), c18Diff(before, after), strings.Join(texts[:i], ", "))
 				return
 			}
-			if want := next.dump(); strings.Join(want, "|") != strings.Join(after, "|") {
+			if want := next.dump(); !kit.SameList(want, after) {
 				r.Fail("table-mismatch", "table-differs-after-op:"+sig, "after %s the table differs from the ISO model: %s (history: %s)", o.goal(), c18Diff(want, after), strings.Join(texts[:i], ", "))
 				return
 			}
-			if strings.Join(before, "|") != strings.Join(after, "|") {
+			if !kit.SameList(before, after) {
 				changed++
 			}
 			model = next
 		case "query":
+			if o.Near > 0 {
+				// a query next to an existing entry: all three arguments bound, one of them possibly off by a little
+				rows := model.dump()
+				f := strings.SplitN(rows[o.Near%len(rows)], " ", 3)
+				o.P, o.S, o.N = f[0], f[1], kit.AtomText(f[2])
+				if f[2] == "," || f[2] == "|" {
+					o.N = "'" + f[2] + "'"
+				}
+				switch o.Near / 1000 % 5 {
+				case 1: // another specifier of the same class
+					for _, sp := range c18Specs {
+						if sp != f[1] && c18Class(sp) == c18Class(f[1]) {
+							o.S = sp
+						}
+					}
+				case 2:
+					o.P = fmt.Sprint(c18Prios[1+o.Near%(len(c18Prios)-1)])
+				case 3:
+					o.P = "P"
+				case 4:
+					o.S = "S"
+				}
+				texts[i] = o.goal()
+			}
 			rows, err := dump(o.goal())
 			if err != nil {
 				r.Fail("query-failed", "current_op-raised", "%s raised %s", o.goal(), kit.CanonErr(err))
@@ -417,9 +446,9 @@ func (c18) Exec(r *kit.Run) {
 			}
 			sort.Strings(want)
 			r.Logf("%d %s -> %d answers", i, o.goal(), len(rows))
-			if strings.Join(rows, "|") != strings.Join(want, "|") {
+			if !kit.SameList(rows, want) {
 				pat := fmt.Sprintf("%v%v%v", o.P != "P", o.S != "S", o.N != "N")
-				r.Fail("answers-mismatch", "current_op-answers-differ:pattern="+pat, "%s answered %v, the model has %v (history: %s)", o.goal(), rows, want, strings.Join(texts[:i], ", "))
+				r.Fail("answers-mismatch", "current_op-answers-differ:pattern="+pat, "%s answered %q, the model has %q (history: %s)", o.goal(), rows, want, strings.Join(texts[:i], ", "))
 				return
 			}
 		case "probe":
